@@ -66,6 +66,9 @@ class Engine(ExprMixin, StmtMixin):
         self._modules = {}
         self.cur_fi = None
         self.cur_contract = {}
+        self.lib_overrides = {}
+        self.comp_index = None
+        self.comp_site = None
         self.cur_func = ""
         self.contracts = {}          # "relpath::Qual" -> contract dict
         self.used_trusted = set()    # names of library contracts / inlined helpers actually used
@@ -80,6 +83,8 @@ class Engine(ExprMixin, StmtMixin):
         _abs.install_spec_builtins(self)
         _lt.install_spec_builtins(self)
         _li.install_spec_builtins(self)
+        from . import libmask as _lm
+        _lm.install(self)
 
     # ------------------------------------------------------------------ modules / classes
     def module(self, relpath):
@@ -132,7 +137,7 @@ class Engine(ExprMixin, StmtMixin):
                 rel, rest = self.dotted_to_relpath(dotted)
                 if rel is not None and not rest:
                     return VModule(dotted)
-            h = _lib.LIB.get(dotted)
+            h = self.lib_overrides.get(dotted) or _lib.LIB.get(dotted)
             if h is not None:
                 self.used_trusted.add(f"lib:{dotted}")
                 return VFunc(dotted, h)
@@ -153,7 +158,7 @@ class Engine(ExprMixin, StmtMixin):
 
     def module_attr(self, base, attr, node):
         dotted = f"{base.name}.{attr}"
-        h = _lib.LIB.get(dotted)
+        h = self.lib_overrides.get(dotted) or _lib.LIB.get(dotted)
         if h is not None:
             self.used_trusted.add(f"lib:{dotted}")
             return VFunc(dotted, h)
@@ -572,6 +577,9 @@ class Engine(ExprMixin, StmtMixin):
             for g in c.get("modifies_ghost", []):
                 if g in st.ghost:
                     st.ghost[g] = self.havoc_value(st.ghost[g], st, f"{g}@call")
+            for pname in c.get("modifies_grid", []):
+                grid = self.deref(local[pname], st)
+                grid.set_ver(st, z3.Int(uid(f"gridver@{fi.node.name}")))
             rt = c.get("returns")
             result = fresh(rt, f"ret_{fi.node.name}") if rt is not None else NONEV
             if rt is not None:
@@ -662,6 +670,8 @@ class Engine(ExprMixin, StmtMixin):
         self.loop_env = []
         self.depth = 0
         self.no_merge = not c.get("merge", True)
+        self.lib_overrides = dict(c.get("lib", {}))
+        self.externals = dict(_lt.DEFAULT_EXTERNALS, **c.get("externals", {}))
         n_before = len(self.obligations)
         src = ast.get_source_segment(fi.module.src, fi.node) or ""
         self.functions_under_contract.append({
@@ -778,6 +788,9 @@ class Engine(ExprMixin, StmtMixin):
                     self.induction(s, f"post-induction{i}", var, lo, hi, prop, {"result": rv}, fi.node)
                 for i, e in enumerate(c.get("ensures", [])):
                     s.assume(self.prove(s, f"ensures{i}", e, {"result": rv}, fi.node))
+                for i, e in enumerate(c.get("ensures_here", [])):
+                    # may name the function's locals as witnesses; proved here, never assumed at call sites
+                    self.prove(s, f"ensures_here{i}", e, {"result": rv}, fi.node)
             elif oc[0] == RAISE:
                 if c.get("excuse_rejected") and oc[1] in c.get("raises", ()):
                     # nothing is owed on a path that ends in an explicit rejection: obligations emitted earlier on
